@@ -4,8 +4,10 @@
    owner, or dropped by the operation.  PARTIAL: the modelled algorithms are truncate, clear, pop,
    remove, swap_remove, insert, push, retain (PanicGuard), dedup_by (FillGapOnDrop), drain
    (consumed from both ends; dropped / keep_rest / leaked), extract_if (early drop), split_off,
-   extend-with-clones; splice, map(_in_place), into_iter, append, partition are covered by the
-   implementation-side drop-count monitor only. *)
+   extend-with-clones, into_iter (consumed from both ends, then dropped), splice (partially consumed,
+   then dropped), map_in_place (closure panicking at any call), append; map, extend with lying size
+   hints, resize_with, dedup_by_key, partition are covered by the implementation-side drop-count
+   monitor only. *)
 From Coq Require Import List Permutation.
 From BS Require Import Colls CollsProofs.
 Import ListNotations.
@@ -39,6 +41,15 @@ Theorem C06_drain_leaked_never_twice :
 Proof. exact drain_forget_no_double. Qed.
 Theorem C06_split_off : forall l a b, conserved (op_split_off l a b) l.
 Proof. exact split_off_conserved. Qed.
+Theorem C06_into_iter : forall dp l kf kb, conserved (op_into_iter dp l kf kb) l.
+Proof. exact into_iter_conserved. Qed.
+Theorem C06_splice : forall dp l a b repl take, conserved (op_splice dp l a b repl take) (l ++ repl).
+Proof. exact splice_conserved. Qed.
+Theorem C06_map_in_place : forall l k, conserved (op_map_in_place l k) l.
+Proof. exact map_in_place_conserved. Qed.
+Theorem C06_append : forall l other, conserved (op_append l other) (l ++ other).
+Proof. exact append_conserved. Qed.
+
 Theorem C06_mirrored : forall o input, conserved o input -> conserved (mirror o) input.
 Proof. exact mirror_conserved. Qed.
 
@@ -55,3 +66,7 @@ Print Assumptions C06_drain.
 Print Assumptions C06_drain_leaked_never_twice.
 Print Assumptions C06_split_off.
 Print Assumptions C06_mirrored.
+Print Assumptions C06_into_iter.
+Print Assumptions C06_splice.
+Print Assumptions C06_map_in_place.
+Print Assumptions C06_append.
